@@ -76,20 +76,22 @@ def checkWrite (st : St) (what : String) (pgs : List Nat) (obs : String) : St ×
       else (st', some s!"{what}-stray-bits")
 
 def stepOp (st : St) (op obs : String) : St × Option String :=
-  if st.dead then (st, if obs == "dead" then none else some "op-after-refusal") else
+  -- a refused request changes nothing (the harness reconnects to the same daemon and the history goes on);
+  -- `dead` = the daemon could not be reconnected after a refusal
+  if obs == "dead" then (st, some "daemon-not-reconnectable-after-refusal") else
   let body := ":".intercalate ((obs.splitOn ":").drop 1)
   match op.splitOn ":" with
   | ["mt", regs] =>
     match parseRegs regs with
     | none => (st, some "unparsable")
-    | some rs => if body == "ok" then ({ st with table := rs }, none) else ({ st with dead := true }, none)
+    | some rs => if body == "ok" then ({ st with table := rs }, none) else (st, none)
   | ["add", reg] =>
     match parseRegs reg with
-    | some [r] => if body == "ok" then ({ st with table := st.table ++ [r] }, none) else ({ st with dead := true }, none)
+    | some [r] => if body == "ok" then ({ st with table := st.table ++ [r] }, none) else (st, none)
     | _ => (st, some "unparsable")
   | ["rem", reg] =>
     match parseRegs reg with
-    | some [r] => if body == "ok" then ({ st with table := st.table.filter (· != r) }, none) else ({ st with dead := true }, none)
+    | some [r] => if body == "ok" then ({ st with table := st.table.filter (· != r) }, none) else (st, none)
     | _ => (st, some "unparsable")
   | ["lb", sz, off] =>
     match hex? sz, hex? off with
@@ -100,8 +102,8 @@ def stepOp (st : St) (op obs : String) : St × Option String :=
       else
         -- refusing is demanded when the log is too small; refusing a covering log is a violation (unless the request
         -- itself is malformed: size 0 or an offset that cannot be mapped)
-        if cov && sz != 0 && off % 4096 == 0 then ({ st with dead := true }, some "log-base-refused-although-log-covers")
-        else ({ st with dead := true }, none)
+        if cov && sz != 0 && off % 4096 == 0 then (st, some "log-base-refused-although-log-covers")
+        else (st, none)
     | _, _ => (st, some "unparsable")
   | ["w", g, l] =>
     match hex? g, hex? l with
